@@ -117,10 +117,13 @@ func runC22(c *an.Ctx) {
 		// R3 callers
 		n := 0
 		for _, s := range locks.Callers(wf) {
-			n++
-			fn := an.FuncName(s.Parent())
-			ok := fn == "(*serfQueries).handleInstallKey" || fn == "(*serfQueries).handleUseKey" || fn == "(*serfQueries).handleRemoveKey"
-			c.Add(ok, "R3", "writer-caller:"+fn, s, "the keyring file is written only by the key-modifying handlers", "who-may-call")
+			// a call inside a new helper counts for each known function the helper is part of
+			for _, o := range an.Owners(s.Parent()) {
+				n++
+				fn := an.FuncName(o)
+				ok := fn == "(*serfQueries).handleInstallKey" || fn == "(*serfQueries).handleUseKey" || fn == "(*serfQueries).handleRemoveKey"
+				c.Add(ok, "R3", "writer-caller:"+fn, s, "the keyring file is written only by the key-modifying handlers", "who-may-call")
+			}
 		}
 		c.Floor("R3", "call sites of writeKeyringFile", n, 3)
 		c.Add(!locks.Escapes(wf), "R3", "writer-not-a-value", wf, "writeKeyringFile is only called directly", "reference enumeration")
